@@ -197,11 +197,12 @@ func checkReplySinkGuards(c *report.Ctx) {
 	}
 	var bad []string
 	for _, a := range accs {
-		if !allowed[a] {
+		// reads elsewhere are harmless (a guard table, a diagnostic); what must stay with the two owners is every WRITE
+		if !allowed[a] && strings.HasSuffix(a, ":write") {
 			bad = append(bad, a)
 		}
 	}
-	c.Check("R-WHO", ictxT+"/reply-fields-single-owner", "the reply stream and the ReplySent mark are touched only by setReplyStream (attach) and sendResponseUnsafe (send)", len(bad) == 0, fpos(s.f), len(accs), "other accesses: %v", bad)
+	c.Check("R-WHO", ictxT+"/reply-fields-single-owner", "the reply stream and the ReplySent mark are written only by setReplyStream (attach) and sendResponseUnsafe (send)", len(bad) == 0, fpos(s.f), len(accs), "other writers: %v", bad)
 	// callers hold the server mutex
 	sites := callSites(c, srvT+".sendResponseUnsafe")
 	for _, st := range sites {
